@@ -25,18 +25,19 @@ func weighted(vals []string, w []int) *rapid.Generator[string] {
 
 // PathOpts controls G-AST.
 type PathOpts struct {
-	MaxSteps    int  // main path steps (default 5)
-	FilterDepth int  // nested filter levels allowed (default 2)
-	LogicDepth  int  // logical nesting (default 3)
-	Funcs       bool // allow functions (trailing, and in operands)
-	NoDollar    bool // no "$"-rooted operands
-	NoAgg       bool // no aggregate functions
-	NoFilter    bool
-	BigInts     bool // indexes / slice bounds at integer extremes
-	FilterHeavy bool // more filters, more == != && || !
-	RootOmit    bool // allow root-omitted top-level paths
-	MinSteps    int
-	FuncPct     int // chance of each trailing function on the main path (default 45)
+	MaxSteps       int  // main path steps (default 5)
+	FilterDepth    int  // nested filter levels allowed (default 2)
+	LogicDepth     int  // logical nesting (default 3)
+	Funcs          bool // allow functions (trailing, and in operands)
+	NoDollar       bool // no "$"-rooted operands
+	NoAgg          bool // no aggregate functions
+	NoFilter       bool
+	BigInts        bool // indexes / slice bounds at integer extremes
+	FilterHeavy    bool // more filters, more == != && || !
+	RootOmit       bool // allow root-omitted top-level paths
+	MinSteps       int
+	FuncPct        int // chance of each trailing function on the main path (default 45)
+	OperandFuncPct int // chance of a function on an operand path (default 12)
 }
 
 // G is a generation context: it hands out each function name at most once per case so
@@ -289,6 +290,13 @@ func (g *G) Path() *Path {
 	return p
 }
 
+func (g *G) operandFuncPct() int {
+	if g.O.OperandFuncPct > 0 {
+		return g.O.OperandFuncPct
+	}
+	return 12
+}
+
 // OperandPath draws an operand path. group=false gives a path legal in comparisons.
 func (g *G) OperandPath(filterDepth int, group bool) *Path {
 	p := &Path{Root: RootAt}
@@ -304,7 +312,7 @@ func (g *G) OperandPath(filterDepth int, group bool) *Path {
 			p.Steps = append(p.Steps, g.Step(filterDepth, g.chance("groupstep", 35), false))
 		}
 		if g.O.Funcs {
-			p.Steps = g.funcs(p.Steps, 2, 12)
+			p.Steps = g.funcs(p.Steps, 2, g.operandFuncPct())
 		}
 		return p
 	}
@@ -325,7 +333,7 @@ func (g *G) OperandPath(filterDepth int, group bool) *Path {
 		p.Steps = append(p.Steps, g.Step(0, false, false))
 	}
 	if g.O.Funcs {
-		p.Steps = g.funcs(p.Steps, 2, 12)
+		p.Steps = g.funcs(p.Steps, 2, g.operandFuncPct())
 	}
 	return p
 }
